@@ -5,6 +5,7 @@ import IRModel.Lemmas.WrapC03
 import IRModel.Lemmas.WrapC08
 import IRModel.Lemmas.WrapC06
 import IRModel.Lemmas.WrapC04
+import IRModel.Lemmas.WrapC13
 /-!
 # Wrapper-level theorems (per-protocol `encode()` / `decode()` bodies inside the model)
 
@@ -114,6 +115,20 @@ theorem C04_wrapper (t : Tables) (w : Wrapper) (tol : Match.Tol) (htol : tol.ok)
   obtain ⟨p, hS⟩ := c01OK_spec t w hok
   exact C04_wrapper_spec t w tol htol hw hwt p hS u hu hr
 
+/-- **C13 for a traced protocol decoder**, from the kernel-checked obligation `c13OK` (= `c08OK` and: every leaf of the
+    decode trees that raises does so before touching `_last_code` or a timer): a rejected candidate leaves the decoder
+    instance exactly as it was, hence — `Props/C13.C13` instantiated with this protocol's `decode()` as the streaming
+    thread's dispatcher — any two chunkings of the same duration stream leave the same state, deliver the same sequence
+    of codes and leave the same remainder pending. -/
+theorem C13_wrapper (t : Tables) (w : Wrapper) (hok : c13OK t w = true) :
+    ∃ hS : C08Spec t w, ∀ (f : Nat) (s : PState t) (chunks₁ chunks₂ : List (List Int)),
+      chunks₁.flatten = chunks₂.flatten →
+      IRModel.Stream.runChunks (protoDec t w hS) f s [] chunks₁ = IRModel.Stream.runChunks (protoDec t w hS) f s [] chunks₂ := by
+  simp only [c13OK, Bool.and_eq_true] at hok
+  refine ⟨c08OK_spec t w hok.1.1, ?_⟩
+  intro f s c1 c2 h
+  exact C13_wrapper_spec t w _ hok.1.2 hok.2 f s c1 c2 h
+
 /-- non-vacuity: a two-field toy protocol (pulse distance, 8-bit function + its complement, `decode()` re-checks the
     complement) meets both obligations -/
 def toyT : Tables :=
@@ -136,7 +151,7 @@ def toyW : Wrapper :=
                   (.ite .lastEq (.leaf [] .retLast)
                     (.leaf [.stopLast, .setLastNone, .setLastCode] (.ret [("F", .field "F"), ("F_CHECKSUM", .field "F_CHECKSUM")] true))) }
 
-example : wfAll toyT ⟨20, 1⟩ = true ∧ c01OK toyT toyW = true ∧ c05OK toyT toyW = true ∧ c07OK toyT toyW = true ∧ c08OK toyT toyW = true := by decide +kernel
+example : wfAll toyT ⟨20, 1⟩ = true ∧ c01OK toyT toyW = true ∧ c05OK toyT toyW = true ∧ c07OK toyT toyW = true ∧ c08OK toyT toyW = true ∧ c13OK toyT toyW = true := by decide +kernel
 
 /-- the held-key shortcut moved in front of the complement check (a frame with a corrupted complement then returns the
     held key) fails the C07 obligation -/
